@@ -265,7 +265,9 @@ let () =
            let (br, (fl, fu)) = q_mul_diag so zero_itv x y in
            let br = int_of_z br in
            bump (Printf.sprintf "mul:branch%d" br);
-           if fl || fu then (tag := "flagloss"; bump "mul:flagloss")
+           (* coverage only: cases of branch 9 where the chosen product's flags differ from the other one's
+              (the class on which the code before ed6ee8d was wrong) *)
+           if fl || fu then bump "mul:branch9-second-candidate-with-different-flags"
          end;
          if op = "div" then begin
            let e = iempty xi || iempty yi in
@@ -299,15 +301,8 @@ let () =
          if d_unmodelled then bump "D:infinity-in-bound-not-compared"
          else if exact_cmp then begin
            let ok = same_model_raw so m r && same_obs so m o in
-           if not ok then begin
-             if op = "mul" && !tag = "flagloss" then begin
-               let mf = q_mul_fixed so zero_itv x y in
-               if same_model_raw so mf r && same_obs so mf o then bump "mul:flagloss-but-real-is-fixed"
-               else bump "mul:flagloss-real-differs-from-model(dirty temporary)"
-             end else if op = "mul" && (let mf = q_mul_fixed so zero_itv x y in same_model_raw so mf r && same_obs so mf o)
-             then bump "mul:real-is-fixed"
-             else fail "MODEL" op i j !tag (desc () ^ " model " ^ model_str m ^ (if q_is_empty so m then " (empty)" else ""))
-           end
+           if not ok then
+             fail "MODEL" op i j !tag (desc () ^ " model " ^ model_str m ^ (if q_is_empty so m then " (empty)" else ""))
          end else begin
            (* inexact division: the real result must contain the exact one, tightly *)
            let me = q_is_empty so m in
